@@ -148,6 +148,8 @@ class StrContract(Contract):
         if exc is not None:
             mech = 'no-termination:' + call.name if isinstance(exc, StepBudgetExceeded) else 'raises-where-str-returns:' + call.name
             ctx.violation('raised-where-str-returns', dict(det, error=repr(exc)[:200]), call, mech=mech)
+            if isinstance(exc, StepBudgetExceeded):
+                ctx.extra['n_budget_violations'] = ctx.extra.get('n_budget_violations', 0) + 1
             return
         got = result_text(L, result)
         if isinstance(ref, list) or (isinstance(ref, tuple) and call.name in ('partition', 'rpartition')):
